@@ -669,6 +669,14 @@ def rules(chk: Check) -> None:
     from .c13 import r13_2
     # (the two caller-side clauses of r13_2 address locals of findPlasmaProfilePoint by their spelling; they are decided here by role instead)
     r13_2(Remap(chk, {"R13.2": "R04.7"}, only=lambda rule, key, where: key not in ("pairing|c1c2", "call-args")))
+    # R04.8: the field gradient that enters the kinetic term of the T33 equation is the z-derivative of the very profile whose values enter V and w
+    # (shared with C09 R09.1);  R04.9: the Boltzmann solver boosts a deep copy, so the background whose profiles are reported stays in the wall frame
+    # (shared with C12 R12.5)
+    from . import c09, c12
+    c09.r09_12(Remap(chk, {"R09.1": "R04.8"}))
+    c12.r12_5(Remap(chk, {"R12.5": "R04.9"}))
+    chk.floor("R04.8", 2)
+    chk.floor("R04.9", 1)
     fp, cx = P.fp, P.cx
     ok = all(eqx(kwarg(c, "s1", 3), P.S1, cx) and eqx(kwarg(c, "s2", 4), P.S2, cx) for c in P.lhs_calls)
     chk.ob("R04.7", fp.where(), "T30 is subtracted from c1 and T33 from c2 (tuple positions 0 and 1 of deltaToTmunu)", ok, f"s1 = {P.S1}; s2 = {P.S2}", key="R13.2|pairing|c1c2")
